@@ -402,8 +402,22 @@ WellTyped(T, x) ==
        [] T = "Quantity" -> CanonDec(DOfItem(x.val)) /\ Len(x.unit) > 0
 
 (* Equality of values (not of spellings): decimals by value, quantities by value and unit,
-   temporal values by precision and components, second and millisecond being one precision. *)
+   temporal values by precision and components, second and millisecond being one precision,
+   DateTimes that carry an offset as instants. *)
 SamePrec(p, q) == p = q \/ (p >= 6 /\ q >= 6)
+(* day number of a civil date (proleptic Gregorian; only differences matter) *)
+DayNumber(y, mo, d) ==
+  LET yy  == IF mo <= 2 THEN y - 1 ELSE y
+      era == yy \div 400
+      yoe == yy - era * 400
+      mp  == (mo + 9) % 12
+      doy == (153 * mp + 2) \div 5 + d - 1
+  IN era * 146097 + yoe * 365 + yoe \div 4 - yoe \div 100 + doy
+(* a DateTime that carries an offset, as an instant: <<day, minute of day, second, ms>> in UTC *)
+UtcKey(x) ==
+  LET mins == x.h * 60 + x.mi - x.off
+  IN << DayNumber(x.y, x.mo, x.d) + (IF mins < 0 THEN 0 - 1 ELSE IF mins >= 1440 THEN 1 ELSE 0),
+        (mins + 1440) % 1440, x.sec, x.ms >>
 ValEq(x, y) ==
   /\ x.t = y.t
   /\ CASE x.t = "b" -> x.b = y.b
@@ -413,8 +427,10 @@ ValEq(x, y) ==
        [] x.t = "q" -> DEq(DOfItem(x.val), DOfItem(y.val)) /\ x.unit = y.unit
        [] x.t = "date" -> x.p = y.p /\ x.y = y.y /\ x.mo = y.mo /\ x.d = y.d
        [] x.t = "time" -> SamePrec(x.p, y.p) /\ x.h = y.h /\ x.mi = y.mi /\ x.sec = y.sec /\ x.ms = y.ms
-       [] x.t = "dt" -> /\ SamePrec(x.p, y.p) /\ x.y = y.y /\ x.mo = y.mo /\ x.d = y.d /\ x.h = y.h
-                        /\ x.mi = y.mi /\ x.sec = y.sec /\ x.ms = y.ms /\ x.tz = y.tz /\ x.off = y.off
+       [] x.t = "dt" -> /\ SamePrec(x.p, y.p) /\ x.tz = y.tz
+                        /\ IF x.tz THEN UtcKey(x) = UtcKey(y)          \* the same instant, whatever the offsets
+                           ELSE /\ x.y = y.y /\ x.mo = y.mo /\ x.d = y.d /\ x.h = y.h
+                                /\ x.mi = y.mi /\ x.sec = y.sec /\ x.ms = y.ms
        [] OTHER -> FALSE
 CollValEq(a, b) == Len(a) = Len(b) /\ \A j \in 1..Len(a) : ValEq(a[j], b[j])
 =============================================================================
